@@ -1,3 +1,4 @@
 import Driver.Util
 import Driver.Ring
 import Driver.Kcp
+import Driver.Sess
